@@ -915,7 +915,7 @@ func init() {
 				"routes never deliver in the tss/ibc configurations (no signing group / no channel): an active tunnel is observed as processed through its produce_packet_fail or deactivate_tunnel end-block event",
 			}
 			r.Required = required(r.Quick())
-			deadline := r.Deadline(4*time.Minute, 40*time.Minute)
+			deadline := r.Deadline(12*time.Minute, 40*time.Minute)
 			for _, c := range configs(r.Quick()) {
 				sp := newSpec(c)
 				sr := engine.Search(sp, engine.SearchOpts{Depth: c.Depth, Deadline: deadline})
@@ -923,6 +923,11 @@ func init() {
 				if len(r.Violations) > 0 {
 					break
 				}
+			}
+			if !r.Exhaustive {
+				// a run cut short by the time cap need not have met every observation; never a failure
+				r.Required = nil
+				r.Notes = append(r.Notes, "vacuity guard not applied: the time cap ended the run before all configurations were explored")
 			}
 			r.ConfirmViolations(func(cfg any) engine.Spec { return newSpec(cfg.(Cfg)) })
 		},
